@@ -189,7 +189,8 @@ PROPS = {
     },
     "C14": {
         "gens": ["C14"],
-        "derive_programs": {"quick": 40, "thorough": 300},
+        "derive_programs": {"quick": 30, "thorough": 200},
+        "derive_kind": "schema",
         "rule": "`conf <call tree> <schema> <bytes>`: REAL data recorded when the stream is generated — for ~150 concrete Rust types (every built-in Schema impl: ints, NonZero*, floats, char, str/String/PathBuf, unit, tuples 1..6, arrays, slices/Vec/sets, maps incl. non-string keys, Option, Result, references, ranges, heapless 0.7/0.8, uuid, chrono DateTime<Utc/FixedOffset>, nalgebra matrices, Key, DataModelType/OwnedDataModelType; hand-written derives: unit/newtype/tuple/named, zero-field forms, generic, lifetime-carrying, nested, raw identifiers; seed-generated #[derive(Schema)] programs) and candidate + random values each: the exact serde call tree from a recording serializer (is_human_readable = false), T::SCHEMA, and postcard's bytes. The Lean driver evaluates the specification on them: conforms(tree, schema), the schema-driven reader consuming the bytes exactly, enc(erase tree) = bytes; non-trivial = distinct op line",
         "nontrivial": lambda op, a: True,
         "diff_is_witness": True,
@@ -198,7 +199,8 @@ PROPS = {
     },
     "C17": {
         "gens": ["C17"],
-        "derive_programs": {"quick": 40, "thorough": 300},
+        "derive_programs": {"quick": 30, "thorough": 200},
+        "derive_kind": "schema",
         "rule": "`dynagree <schema> <json> <bytes>`: REAL data of the C14 corpus (~150 concrete Rust types with Schema + Serialize: every integer width, chars, strings, byte slices, options, sequences, tuples and arrays of arity 0/1/n, structs of all four forms incl. zero-field ones, enums with all four variant forms, nested, string-keyed maps, the schema-of-schema kind, seed-generated derive programs) and candidate + random values, filtered to the property's scope by the harness (recorded call tree: integers within i64/u64, finite floats, string-keyed ascending maps, no Some(x) with JSON null): T::SCHEMA, serde_json::to_value(v), postcard::to_allocvec(v); the real to_stdvec_dyn / from_slice_dyn answers are compared with the model's and (oracle) with the static bytes / the JSON; non-trivial = distinct op line",
         "nontrivial": lambda op, a: True,
         "diff_is_witness": False,
